@@ -110,8 +110,28 @@ def xfer_scripts(tier, seed, quick_n, thorough_n):
     n = sizes(tier, quick_n, thorough_n)
     return fam_xfer(seed, n) + fam_xfer_clean(seed, max(8, n // 5))
 
-def std_check(pid, families, required, model_spec=None, assumptions=None, extra_prefixes=None):
-    """Generic check: optional bounded model + scenario families + trace validation."""
+def component(r, modname, tier, seed, prefixes=None):
+    """Run a component-level check (its own TLA+ model of one data structure, TLC-generated cases replayed on the
+    real object, recorded random runs validated by TLC) and add its evidence to `r`.  Returns the extra rule /
+    marker names that must have been exercised."""
+    import importlib
+    m = importlib.import_module("vlib." + modname)
+    n0 = len(r.violations)
+    if prefixes is None:
+        m.part(r, tier, seed)
+    else:
+        m.part(r, tier, seed, prefixes)
+    for i in range(n0, len(r.violations)):
+        x, sc, tp = r.violations[i]
+        sc = dict(sc, component=modname) if isinstance(sc, dict) else {"component": modname, "script": sc}
+        r.violations[i] = (x, sc, tp)
+    if hasattr(m, "required"):
+        return list(m.required(prefixes, r)) if prefixes is not None else list(m.required(r))
+    req = list(getattr(m, "REQUIRED", []))
+    return [] if len(r.violations) > n0 else req
+
+def std_check(pid, families, required, model_spec=None, assumptions=None, extra_prefixes=None, parts=None):
+    """Generic check: optional bounded model + scenario families + trace validation (+ component checks)."""
     def f(tier, seed):
         r = Result(pid, tier, seed)
         if model_spec:
@@ -125,7 +145,11 @@ def std_check(pid, families, required, model_spec=None, assumptions=None, extra_
         r.assumptions = list(assumptions or []) + [
             "single-threaded deterministic runtime under tokio virtual time; the OS/UDP layer is replaced by the simulated Transport",
             "hook values (cfg librqbit_utp_verif) are read-only copies of the implementation's state"]
-        return r.finish(rule_text=GENERAL_RULE, required_cov=required)
+        req = list(required)
+        for (modname, prefixes) in (parts or []):
+            req += component(r, modname, tier, seed, prefixes)
+        return r.finish(rule_text=GENERAL_RULE + ("; component checks: " + ", ".join(m for m, _ in parts) if parts else ""),
+                        required_cov=req)
     CHECKS[pid] = f
     return f
 
@@ -139,24 +163,29 @@ def c01(tier, seed):
     scripts = xfer_scripts(tier, seed, 50, 1000) + fam_mtu(seed, sizes(tier, 16, 300)) + fam_kf(seed, 6)
     r.samples = [sample_of(s) for s in scripts[:2]]
     r.add_validated(core.run_and_validate("C01", scripts))
+    req_parts = component(r, "ooq", tier, seed, ["C01."]) + component(r, "segs", tier, seed, ["C01.", "Segs."])
     r.assumptions = ["payload identity rests on the projection function harness/src/stream.rs (unit-tested by corrupting bytes)",
                      "single-threaded deterministic runtime: real-thread races between application calls and the connection task are not explored"]
-    return r.finish(rule_text=GENERAL_RULE, required_cov=["C01.SegContiguous", "C01.ReadIsPrefix", "C01.SegStable", "C01.NoGarbage"])
+    return r.finish(rule_text=GENERAL_RULE + "; component checks: ooq (Reasm.tla), segs (Segments.tla)",
+                    required_cov=["C01.SegContiguous", "C01.ReadIsPrefix", "C01.SegStable", "C01.NoGarbage"] + req_parts)
 
 std_check("C02", [("xfer_clean", 30, 400), ("xfer", 40, 800), ("peer_recv", 24, 300)] + KF,
           ["C02.IdleWrite", "C02.IdleShutdown", "C02.NoStall", "C02.Silence", "C02.CompletesOk", "C02.ReaderWoken"],
           assumptions=["liveness of the code is observed as completion without failure in virtual time over the explored schedules",
                        "application pauses and network delays stay below the configured inactivity timeout; the SYN itself is not dropped"])
 std_check("C03", [("close", 120, 2000), ("xfer", 20, 300), ("peer_recv", 32, 500)] + KF,
-          ["C03.FlushHonest", "C03.EofOnlyAfterFin", "C03.SuccessMeansDelivered", "C03.AbortSurfaces", "C03.FinInSequence"])
+          ["C03.FlushHonest", "C03.EofOnlyAfterFin", "C03.SuccessMeansDelivered", "C03.AbortSurfaces", "C03.FinInSequence"],
+          parts=[("ooq", ["C03."])])
 std_check("C04", [("peer_recv", 100, 1500), ("xfer", 30, 400)] + KF,
           ["C04.AckExact", "C04.AckMonotone", "C04.SackExact", "C04.WindowHonest", "C04.WithinBuffer", "C04.ConsumeExact",
-           "C04.OutOfOrderIsAhead", "C04.DuplicateIsOld", "C04.AlreadyPresentIsHeld"], model_spec=DATA_MODEL)
+           "C04.OutOfOrderIsAhead", "C04.DuplicateIsOld", "C04.AlreadyPresentIsHeld"], model_spec=DATA_MODEL,
+          parts=[("ooq", ["C04.", "Reasm."])])
 std_check("C05", [("peer_send", 100, 1500), ("xfer", 30, 400)] + KF,
           ["C05.WindowRespected", "C05.ZeroWindowSilence", "C05.SlowStartBound", "C05.OneSegmentAfterRto"], model_spec=DATA_MODEL)
 std_check("C06", [("peer_send", 120, 2000), ("xfer", 30, 400)] + KF,
           ["C06.SegStable", "C06.NeverRetxAcked", "C06.Cap", "C06.RetxAllowed", "C06.RtoNotEarly", "C06.Backoff",
-           "C06.RtoRange", "C06.RtoFires", "C06.TimerArmed", "C06.FastRetx"], model_spec=DATA_MODEL)
+           "C06.RtoRange", "C06.RtoFires", "C06.TimerArmed", "C06.FastRetx"], model_spec=DATA_MODEL,
+          parts=[("segs", ["C06.", "Segs."])])
 std_check("C07", [("peer_recv", 120, 2000), ("xfer_clean", 20, 200)],
           ["C07.NoSpontaneousAck", "C07.DelayedAck", "C07.ImmediateAck"])
 std_check("C08", [("close", 100, 1500), ("many", 40, 600)],
@@ -171,7 +200,8 @@ std_check("C13", [("many", 80, 1200), ("backlog", 10, 100)],
           ["C13.AcceptFifo", "C13.BacklogBound", "C13.RefusedOnlyWhenFull", "C13.ExcessRefused", "C13.ResetMatches",
            "C13.AcceptReturnsMatched", "C13.AcceptCallOrder", "C13.PairOnce"], model_spec=SOCK_MODEL)
 std_check("C14", [("mtu", 60, 1000), ("xfer", 20, 200), ("hostile", 20, 200)],
-          ["C14.NeverAboveLink", "C14.OrdinaryWithinProven", "C14.OneProbe", "C14.Converges", "C14.LogProbes"])
+          ["C14.NeverAboveLink", "C14.OrdinaryWithinProven", "C14.OneProbe", "C14.Converges", "C14.LogProbes"],
+          parts=[("mtu", None), ("segs", ["C14."])])
 std_check("C17", [("close", 100, 1500), ("peer_send", 40, 500), ("peer_recv", 40, 500)],
           ["C17.FinSeq", "C17.FinAfterData", "C17.NothingAfterFin", "C17.PeerFinInOrder", "C17.FinAnswered",
            "C17.ResetAborts", "C17.SynAckForm", "C17.SynAckRepeats"])
@@ -193,6 +223,7 @@ def c10(tier, seed):
                 x["ctx"] = x["rule"] + ("/" + x["ctx"] if x.get("ctx") else "")
                 x["rule"] = "C10.Isolation"
     r.add_validated(res)
+    req_parts = [x for x in component(r, "ooq", tier, seed, ["C10."]) if x.startswith("C10.")]
     r.assumptions = ["'all byte strings' is covered structurally (grammar shapes x boundary values) plus random fill, not exhaustively",
                      "memory safety is not addressed (the crate has no unsafe)"]
     return r.finish(rule_text=GENERAL_RULE + "; hostile intents from a seeded vocabulary against a socket carrying a second, legitimate connection",
@@ -221,6 +252,9 @@ def replay(path):
     pid = d["property"]
     mod = {"C09": "c09", "C11": "c11", "C15": "c15", "C16": "c16"}.get(pid)
     sc = d.get("script")
+    if isinstance(sc, dict) and sc.get("component"):
+        import importlib
+        return importlib.import_module("vlib." + sc["component"]).replay(path)
     if mod and not (isinstance(sc, dict) and "steps" in sc):
         import importlib
         return importlib.import_module("vlib." + mod).replay(path)
